@@ -6,6 +6,7 @@ seeded PRNG; harness/cmd/vh-http encodes it (own HTTP/1 encoder; x/net Framer + 
 drives the real Dissect and prints projected observables.  What an item must report is computed
 here from the abstract conversation alone.
 """
+from fam import aggregate as _agg
 import base64
 import concurrent.futures
 import hashlib
@@ -1249,6 +1250,7 @@ def c11(ctx):
         ctx.count_case(("http-c11", json.dumps(c, sort_keys=True)), bool(items), "http-" + c["kind"])
         for it in items:
             nitems += 1
+            _agg.note_c16(ctx, "http", it.get("c16"), {"family": "http", "how": "vh-http run (stage)", "case": c})
             why = None
             if it.get("stage") != "ok":
                 why = classify_stage(it)
